@@ -2121,7 +2121,7 @@ func (p *Parser) parseFields() (Fields, error) {
 		fields = append(fields, f)
 
 		// If there's not a comma next then stop parsing fields.
-		if tok, _, _ := p.Scan(); tok != COMMA {
+		if tok, _, _ := p.ScanIgnoreWhitespace(); tok != COMMA {
 			p.Unscan()
 			break
 		}
@@ -2353,7 +2353,7 @@ func (p *Parser) parseDimensions() (Dimensions, error) {
 		dimensions = append(dimensions, d)
 
 		// If there's not a comma next then stop parsing dimensions.
-		if tok, _, _ := p.Scan(); tok != COMMA {
+		if tok, _, _ := p.ScanIgnoreWhitespace(); tok != COMMA {
 			p.Unscan()
 			break
 		}
@@ -2898,7 +2898,7 @@ func (p *Parser) parseCall(name string) (*Call, error) {
 		args = append(args, re)
 	} else {
 		// If there's a right paren then just return immediately.
-		if tok, _, _ := p.Scan(); tok == RPAREN {
+		if tok, _, _ := p.ScanIgnoreWhitespace(); tok == RPAREN {
 			return &Call{Name: name}, nil
 		}
 		p.Unscan()
@@ -2935,7 +2935,7 @@ func (p *Parser) parseCall(name string) (*Call, error) {
 	}
 
 	// There should be a right parentheses at the end.
-	if tok, pos, lit := p.Scan(); tok != RPAREN {
+	if tok, pos, lit := p.ScanIgnoreWhitespace(); tok != RPAREN {
 		return nil, newParseError(tokstr(tok, lit), []string{")"}, pos)
 	}
 
